@@ -225,6 +225,8 @@ defop("to_bits_n", lambda ns, x, n: x.to_bits(n), ["I", "i"], lambda a, cfg, ts:
 defop("declbits", lambda ns, a, b, c: ns.rt.LinComb.from_bits([ns.bo.LinCombBool(a), ns.bo.LinCombBool(b), ns.bo.LinCombBool(c)]),
       ["I", "I", "I"], lambda a, cfg, ts: all(v in (0, 1) for v in a), weight=0.3)
 defop("blist", lambda ns, a, b, c: [a, b, c], ["B", "B", "B"], weight=0.4)
+# bit lists with plain bits among the traced ones (a public field packed in front of a secret one), in any position
+defop("blist_mixed", lambda ns, a, b, c, d: [a, b, c, d], ["Bb", "Bb", "Bb", "Bb"], lambda a, cfg, ts: "B" in ts and "b" in ts, weight=0.5)
 defop("from_bits", lambda ns, l: ns.rt.LinComb.from_bits(l) if len(l) else ns.rt.LinComb.ZERO, ["L"])
 def _from_bits_iterable(ns, l, k):
     # from_bits takes "an array of bits": the same bits handed over as a tuple, generator, iterator, reversed view or map
@@ -255,6 +257,30 @@ defop("arr_sub", lambda ns, a, b: a - b, ["A", "A"], lambda a, cfg, ts: len(a[0]
 defop("arr_scale", lambda ns, a, k: a * k if isinstance(k, int) and k % 2 else k * a, ["A", "Ii"], weight=0.4)
 defop("arr_ite", lambda ns, c, a, b: ns.br.if_then_else(c, a, b), ["B", "A", "A"], lambda a, cfg, ts: len(a[1]) == len(a[2]), weight=0.4)
 defop("arr_joined", lambda ns, a, b: ns.ar.Array(ns.ar.Array([a, b]).joined()), ["A", "A"], weight=0.2)
+# nested arrays (README: "a[i, j]" on arrays of arrays): two rows, element and row access through plain and secret indices; the
+# whole matrix comes back flattened so that every cell is a result
+def _nd(ns, a, c):
+    return ns.ar.Array([ns.ar.Array(list(a.arr)), ns.ar.Array(list(c.arr))])
+
+
+def _nd_set(ns, a, c, i, j, v):
+    m = _nd(ns, a, c)
+    m[i, j] = v
+    return ns.ar.Array(m.joined())
+
+
+def _nd_setrow(ns, a, c, i, d):
+    m = _nd(ns, a, c)
+    m[i] = d
+    return ns.ar.Array(m.joined())
+
+
+_ndpre = lambda a, cfg, ts: len(a[0]) == len(a[1]) and 0 <= a[2] < 2 and 0 <= a[3] < len(a[0])
+defop("nd_get", lambda ns, a, c, i, j: _nd(ns, a, c)[i, j], ["A", "A", "Ii", "Ii"], _ndpre, weight=0.4)
+defop("nd_get2", lambda ns, a, c, i, j: _nd(ns, a, c)[i][j], ["A", "A", "Ii", "Ii"], _ndpre, weight=0.2)
+defop("nd_set", _nd_set, ["A", "A", "Ii", "Ii", "Ii"], _ndpre, weight=0.5)
+defop("nd_row", lambda ns, a, c, i: ns.ar.Array(_nd(ns, a, c)[i]), ["A", "A", "Ii"], lambda a, cfg, ts: len(a[0]) == len(a[1]) and 0 <= a[2] < 2, weight=0.2)
+defop("nd_setrow", _nd_setrow, ["A", "A", "Ii", "A"], lambda a, cfg, ts: len(a[0]) == len(a[1]) == len(a[3]) and 0 <= a[2] < 2, weight=0.3)
 # the linalg helpers take any iterables: here the coefficients / elements are produced lazily, each item emitting its own
 # constraints at the moment it is pulled (a one-hot selector row "i == k for k in range(n)" is the library's own idiom)
 defop("lin_comb_lazy", lambda ns, i, a, b, c: ns.la.lin_comb((i == k for k in range(3)), [a, b, c]), ["I", "Ii", "Ii", "Ii"], weight=0.3)
@@ -300,6 +326,7 @@ defop("snark_chain", lambda ns, x: (ns.rt.snark(lambda a: a * a - 1)(x.val()), N
 # a value assembled from raw integer wires (from_bits and PackIntMod.unpack take LinCombs as well as LinCombBools) and decomposed again
 defop("frombits_tobits", lambda ns, a, b, c: ns.rt.LinComb.from_bits([a, b, c]).to_bits(4), ["I", "I", "I"], weight=0.15)
 defop("frombits_shift", lambda ns, a, b, c: ns.rt.LinComb.from_bits([a, b, c]) >> 1, ["I", "I", "I"], weight=0.15)
+defop("frombits_mixed", lambda ns, a, b, c, d: ns.rt.LinComb.from_bits([a, b, c, d]), ["Ii", "Ii", "Ii", "Ii"], lambda a, cfg, ts: "I" in ts and "i" in ts, weight=0.2)
 defop("unpack_pack", lambda ns, a, b, c: ns.pk.PackIntMod(8).pack(ns.pk.PackIntMod(8).unpack([a, b, c], 0)), ["I", "I", "I"], weight=0.15)
 
 
@@ -588,6 +615,9 @@ def int_values(st, b):
     )
 
 
+MAGIC = [100, 127, 128, 255, 256, 257, 999, 1000, 1001, 1023, 1024, 4095, 4096, 4999, 5000, 5001, 9999, 10000, 32767, 32768, 65535, 65536, 65537, 10 ** 6]
+
+
 class Gen:
     """draws statements model-guided by the values the API reports"""
 
@@ -629,7 +659,8 @@ class Gen:
         elif t == "F":
             stmt = ["in", draw(st.sampled_from(["priv", "priv", "pub"])), "F", draw(ivals)]
         elif t == "i":
-            stmt = ["const", draw(ivals)]
+            # now and then a round / table-boundary constant (1000, 4096, 5000, 65536 ...): sizes of lookup tables, caches and chunks
+            stmt = ["const", draw(st.sampled_from(MAGIC)) * draw(st.sampled_from([1, 1, -1])) if (not safe and draw(st.integers(0, 11)) == 0) else draw(ivals)]
         elif t == "b":
             stmt = ["const", draw(st.booleans())]
         elif t == "f":
@@ -680,6 +711,12 @@ class Gen:
             return self.guard_step()
         if self.allow_guard and self.allow_lazy and m.depth < 3 and draw(st.integers(0, 11)) == 0:
             return self.lazy_step()
+        if getattr(self, "last_op", None) is not None and draw(st.integers(0, 11)) == 0:
+            # the previous operation once more, on the same objects: a value revealed twice, an assertion repeated, a
+            # conversion or comparison done again (anything an object remembers about itself shows here)
+            stmt = [x if not isinstance(x, list) else list(x) for x in self.last_op]
+            self.labels.add("repeated-op")
+            return stmt, m.exec_stmt(stmt)
         op = self._pick_weighted()
         # inside a false guard / under ignore_errors invalid operands are what the code is there for
         p_ood = max(self.p_ood, 0.45) if m.ns.rt.ignore_errors() else self.p_ood
@@ -714,6 +751,7 @@ class Gen:
             stmt.append("inplace")
             self.labels.add("inplace")
         out = m.exec_stmt(stmt)
+        self.last_op = stmt
         self.recent = list(refs) + (list(out[1]) if out[0] == "ok" else [])
         self.labels.add("op:" + op.name)
         self.labels.add("kinds:" + op.name + ":" + ts)
@@ -822,4 +860,17 @@ def chain_programs(b, p="bn128", r=0):
                                                                                 ["op", "sub", [2, 0]]]})
         progs.append({"cfg": {"p": p, "b": b, "r": r, "ignore": False}, "stmts": [["in", "priv", "I", a], ["op", "neg", [0]], ["op", "neg", [1]], ["op", "abs", [1]], ["op", "sub", [2, 0]]]})
         progs.append({"cfg": {"p": p, "b": b, "r": r, "ignore": False}, "stmts": [["in", "priv", "I", a], ["const", 0], ["op", "pow", [0, 1]], ["op", "add", [2, 2]], ["op", "mul", [3, 0]], ["op", "val", [2]]]})
+    # bit lists with plain and secret entries in every arrangement (public fields packed next to secret ones), then used:
+    # squared, revealed, compared with a secret
+    import itertools
+    for pat in itertools.product("ps", repeat=3):
+        if len(set(pat)) == 1:
+            continue
+        for bits in ((1, 1, 1), (1, 0, 1), (0, 1, 0)):
+            stmts = [["in", "priv", "I", v] if k == "s" else ["const", v] for k, v in zip(pat, bits)]
+            stmts += [["const", 0], ["op", "frombits_mixed", [0, 1, 2, 3]], ["op", "mul", [4, 4]], ["op", "val", [4]], ["op", "eq", [4, pat.index("s")]]]
+            progs.append({"cfg": {"p": p, "b": b, "r": r, "ignore": False}, "stmts": stmts})
+            stmts = [["in", "priv", "B", v] if k == "s" else ["const", bool(v)] for k, v in zip(pat, bits)]
+            stmts += [["const", False], ["op", "blist_mixed", [0, 1, 2, 3]], ["op", "from_bits", [4]], ["op", "mul", [5, 5]], ["op", "val", [5]]]
+            progs.append({"cfg": {"p": p, "b": b, "r": r, "ignore": False}, "stmts": stmts})
     return progs
